@@ -37,6 +37,24 @@ CHECKS.update({
    note="Go -O statements are evaluated, not run; BE decode of signed odd widths not judged (emulation limit).", ref="2/C14"),
 })
 
+CHECKS.update({
+ "C08": dict(technique="acceptance-rule monitor: 114-entry violation/boundary catalogue injected into generated schemas; exception class, cited file/line set, CLI exit status and files observed",
+   text="Each case injects one catalogue construct (a violation of a listed constraint or its valid twin on the other side of the limit) at a random scope/depth/file of a generated valid schema; the compiler must accept iff the construct is valid, reject with a ParserError citing the offending file and a line of the construct, and the real CLI must exit non-zero without writing files. Both directions are judged; every sixth case is the untouched valid schema.",
+   note="The catalogue is my reading of the statement; constraints the statement does not list are not generated.", ref="2/C08"),
+ "C11": dict(technique="reference-model monitor: independent scope resolver vs the parsed AST binding and the encoded layout, on purpose-built shadowing schemas",
+   text="Schemas reuse four type names across file scope, nested scopes and imported files with a distinct width per definition; every reference text is chosen first and resolved by an independent implementation of the documented rule; the compiler's binding (file, line, name), width and the generated Python encoder's bytes must agree; unresolvable references (also in imported files naming the importer's definitions) must be rejected at their line.",
+   note="References where 'stop at innermost declaring scope' and 'continue outward' differ are counted, not judged.", ref="2/C11"),
+ "C12": dict(technique="metamorphic monitor over schema rewrites (both sides real generated code, Python always, C on a sample)",
+   text="Random sequences of the statement's rewrites (rename, reorder, alias introduce/inline, nest/un-nest, move to import, literal->constant expression, renumber, layout noise) applied to generated schemas; encoded bytes of mapped values must be identical.",
+   note="Trusts vlib/rewrite.py to preserve numbers and resolved types.", ref="2/C12"),
+ "C13": dict(technique="reference evaluator for constant expressions + read-back of emitted literals (Python import, compiled C program, Go lexical decoding)",
+   text="Expression trees with minimal parentheses (precedence/associativity decide), hex/decimal literals, references across imports, all boolean spellings, strings with every escape and non-ASCII; parsed values, capacities and option values compared with an own evaluator; emitted literals read back in all three languages.",
+   note="/ judged only for non-negative operands; emission judged within int64; Go strings decoded by my implementation of Go's lexical rules.", ref="2/C13"),
+ "C18": dict(technique="differential monitor over repeated/interleaved compilations + cache-coherence monitor on every memoised AST method",
+   text="sha256 of every generated file across fresh processes (hash seeds 0/1/2/random), paths, cwd, output directories, -q, in-process repeats, shared parse, interleaving with another schema; every memoised AST method is recomputed on each call and compared.",
+   note="Only generated files are compared.", ref="2/C18"),
+})
+
 NOT_YET = {}
 
 def main():
